@@ -203,8 +203,13 @@ void vs_yield(unsigned point, unsigned long site)
 			if(pct_change[i] == steps)
 				prio[me] = -(int)(i + 1);
 		/* spinning threads must not starve the others under strict priorities */
-		if(point == 0 && (vs_rand() % 8) == 0)
-			prio[me] = (int)(vs_rand() % 1000);
+		if(point == 0 && (vs_rand() % 8) == 0) {
+			int lo = prio[0];
+			for(int i = 1; i < n_thr; ++i)
+				if(prio[i] < lo)
+					lo = prio[i];
+			prio[me] = lo - 1;
+		}
 	} else {
 		do_switch = (vs_rand() % sw_den) < sw_num;
 	}
